@@ -399,7 +399,7 @@ OPW = [("new", 6), ("clone", 10), ("map", 16), ("copy", 10), ("view", 8), ("expa
        ("mcopy", 6), ("mclone", 5), ("mallclose", 2)]
 
 OPW_MT = [("new", 5), ("clone", 4), ("map", 10), ("copy", 5), ("view", 4), ("getitem", 1), ("to_dense", 1), ("bin", 2), ("default_to", 1),
-          ("mnew", 4), ("mset", 10), ("mget", 8), ("mdel", 2), ("madd_single", 9), ("miadd", 8), ("misub", 4), ("mmax", 4),
+          ("mnew", 4), ("mset", 10), ("mget", 8), ("mdel", 2), ("madd_single", 9), ("miadd", 8), ("misub", 4), ("mmax", 7),
           ("mcopy", 12), ("mclone", 10), ("mallclose", 4)]
 
 def propose(rng, w, focus, opw=None):
@@ -432,7 +432,9 @@ def propose(rng, w, focus, opw=None):
             # torch's copy_ between overlapping views of one storage is unspecified: only the same object or other storages
             cands = [s for s in cands if (s == d and w.objs[d].physical.is_contiguous()) or _sp(w.objs[s].physical) != _sp(w.objs[d].physical)]
             if not cands: continue
-            return dict(op="copy", dst=d, src=rng.choice(cands))
+            # the branch that rebinds the physical: another element count or dtype
+            diff = [s for s in cands if w.objs[s].physical.numel() != w.objs[d].physical.numel() or w.dt(s) != w.dt(d)]
+            return dict(op="copy", dst=d, src=rng.choice(diff) if diff and rng.random() < 0.4 else rng.choice(cands))
         if op == "view":
             return dict(op="view", x=pick(pts), kind=rng.choice(["T", "t", "transpose", "permute", "flatten", "unsqueeze", "freshen", "detach"]), dim=rng.randint(0, 2))
         if op == "expand":
@@ -484,7 +486,7 @@ def propose(rng, w, focus, opw=None):
         def other_for(m):
             # prefer a second MultiTensor with a key that m lacks (the branch that stores / clones an element)
             more = [n for n in mts if set(w.objs[n]._dict) - set(w.objs[m]._dict)]
-            return rng.choice(more) if more and rng.random() < 0.6 else rng.choice(mts)
+            return rng.choice(more) if more and rng.random() < 0.75 else rng.choice(mts)
         if op in ("miadd", "misub", "mmax", "mallclose"):
             m = pick(mts); n = other_for(m)
             if not (mt_ok(m) and mt_ok(n)): continue
